@@ -119,6 +119,12 @@ Theorem C12_refuted_map_key_exact :
   cmp_owned (TMap [(TInt 1, TAtom [97])]) (TMap [(TFloat 4607182418800017408, TAtom [97])]) = Eq.   (* #{1=>a} vs #{1.0=>a}: Erlang says Lt *)
 Proof. vm_compute. reflexivity. Qed.
 
+Theorem C12_refuted_padded_big :      (* 7 in nine digits against 8, against 2^64-1 and against 7: Erlang says Lt, Lt, Eq *)
+  cmp_owned (TBig false [7; 0; 0; 0; 0; 0; 0; 0; 0]) (TInt 8) = Gt /\
+  cmp_owned (TBig false [7; 0; 0; 0; 0; 0; 0; 0; 0]) (TBig false [255; 255; 255; 255; 255; 255; 255; 255]) = Gt /\
+  cmp_owned (TBig false [7; 0; 0; 0; 0; 0; 0; 0; 0]) (TInt 7) = Gt.
+Proof. repeat split; vm_compute; reflexivity. Qed.
+
 (* fixed classes stay fixed on the model *)
 Theorem C12_fixed_binary_vs_bitstring : cmp_owned (TBin [1]) (TBitBin [1; 128] 1) = Lt /\ cmp_owned (TBitBin [1; 128] 1) (TBin [1]) = Gt.
 Proof. split; vm_compute; reflexivity. Qed.
